@@ -17,13 +17,17 @@ from harness import kernelspec, registry, shim
 from harness.core import CaseResult, Fail
 
 BINDINGS = ["contiguous", "strided", "offset", "fortran"]
-PATTERNS = ["dense", "impulse"]
+PATTERNS = ["dense", "impulse", "ties"]
 
 
 def _values(shape, k, kind, pattern, scale=1.0):
     n = int(np.prod(shape))
     i = np.arange(n, dtype=np.float64)
-    if pattern == "impulse":
+    if pattern == "ties":
+        # small integers: neighbouring sums hit exactly zero (upwind ties), level sets hit exactly
+        # +-blend width (x scale), products and sums are exact
+        v = (((i * 7 + 3 * k) % 5) - 2.0) * np.where(((i // 5 + k) % 3) == 0, -1.0, 1.0)
+    elif pattern == "impulse":
         v = np.zeros(n)
         v[(n // 2 + 3 * k) % n] = 1.5 - 0.5 * (k % 3)
         v[(n // 3 + k) % n] = -2.0
